@@ -66,7 +66,8 @@ def agree_rule(ctx):
     pf, wf = pred[0], wr[0]
     pm = first_slice_match(pf.body)
     if not pm:
-        return [ob("C11.agree/anchor", False, ctx.where(pf), "predicate has no match on the first slice")]
+        # the functions exist but the predicate is written in a form this rule does not read (e.g. split_first + boolean matches)
+        return [ob("C11.agree/shape", None, ctx.where(pf), "the legality predicate is not written as a match over the first slice with rejecting arms: agreement between predicate and writer is not decided for this tree")], wr[0]
     ptab = arm_variants(pm[0])
     # predicate: may-accept per variant (mode-specific rejections are evaluated for the simple `model == Some(x)` tests)
     def pred_accepts(v, mode):
@@ -95,7 +96,7 @@ def agree_rule(ctx):
                 branch["script"] = arm_variants(em[0])
                 branch["general"] = branch["script"]
     if not branch:
-        return [ob("C11.agree/anchor", False, ctx.where(wf), "writer does not branch on the mode with a first-slice match in each branch")]
+        return [ob("C11.agree/shape", None, ctx.where(wf), "the path writer does not branch on the mode with a first-slice match in each branch: agreement is not decided for this tree")], wf
 
     def writer_bails(v, mode):
         t = branch[mode]
